@@ -41,6 +41,22 @@ CHECKS = {
          "Complete enumeration by day and over the near-valid string neighbourhoods, validity triples and serial boundary pairs; random exploration for 20-octet serials and decimal text. Encoding is compared byte-for-byte with the harness' own rendering, decoding with its own calendar.",
          "Own proleptic Gregorian calendar in the harness; year 0000 and second 60 are don't-care; chrono is only used by the library.",
          "DESIGN.md §3 C17"),
+ "C01": ("model-based PBT over generated certificate chains (library builder + deterministic pool signer, DER round trip before validation) against a reference interval-set model of accept/reject and of the validated resources; single-point tampering of accepted chains (TBS / signature bit flips, sibling issuer, foreign key, time edge, AKI, DER-patched SKI, foreign block)",
+         "Exploration of generated chains TA -> CA{0..2} -> EE/router/CA with per-family missing/inherit/blocks drawn relative to the issuer's validated set, both overclaim policies, validity edges at millisecond resolution; every accepted chain class is also tampered at a single point and must turn into rejection (Trim + foreign block: accepted with the intersection).",
+         "RSA-SHA256 is trusted to reject modified signed bytes (flips confined to TBS bytes / signature value); chains are built with the library's own TbsCert builder (C05 decides builder/decoder agreement); private interval model in c01.rs.",
+         "DESIGN.md §3 C01"),
+ "C05": ("round-trip PBT per builder (certificate, CRL, manifest, ROA, ASPA, CSR, IdCert, signed message): decode(encode(built)) validates, re-encoding the decoded twin reproduces the bytes (outer object, to-be-signed part, inner content), accessor snapshots of built and decoded twin are identical and panic-free; independent TLV walk for list presence",
+         "Exploration of profile-conforming builder inputs (serial widths, both time encodings, URIs with/without trailing slash, resource sets of all shapes, unsorted/duplicate entry lists, up to 300 revoked / 40 files / 16380-bounded providers).",
+         "Generators stay inside the object profiles (whole seconds, non-empty provider sets without the customer, max-length within the family); Roa::process/Aspa::process read the wall clock and are only called for windows covering 2000..2200.",
+         "DESIGN.md §3 C05"),
+ "C09": ("round-trip PBT of notification/snapshot/delta values through every parser and reader-buffer size; XML-aware mutation fuzzing (in-process) of written and sample files; unbounded lazy byte streams with a counting reader against the per-element byte bound (exhaustive over offending-construct x position for header limits); model check of sort_and_verify_deltas / has_matching_origins",
+         "Exploration for the round trip, mutated bytes and the delta-chain model; complete enumeration of the hostile-stream shapes for the 1 MB header limit, sampled for the 100 MB content limit. Bounds are judged by bytes pulled from a counting BufRead, never by time.",
+         "Peak heap is not measured (no counting allocator in this check); streams of endlessly many valid elements are outside the hostile-stream generator (parse_limited exists for that by design).",
+         "DESIGN.md §3 C09"),
+ "C11": ("round-trip + idempotence PBT over all 16 message variants of RFC 6492/8181/8183 with XML-special characters in every field that admits them; independent well-formedness and attribute-value oracle (Python expat on batches); XML-aware mutation of written and sample messages into every parser (no panic)",
+         "Exploration over generated messages built through public API from protocol-valid values; every written document is additionally parsed by expat and its element order, attribute values and text compared with an independent model of the message.",
+         "python3 with expat must be present (absent => exit 2, inconclusive); publication PDUs with tag None and ErrorReply::empty() are outside the protocol-valid domain and only take part in the idempotence relation / are excluded.",
+         "DESIGN.md §3 C11"),
 }
 PENDING = {}
 ALL = ["C%02d" % i for i in range(1, 18)]
